@@ -25,12 +25,11 @@ def c2(ctx):
 
 
 def c3(ctx):
-    mutate.effect_census(ctx)
-    mutate.mutate_targets_and_encoding(ctx)
+    mutate.effect_census(ctx, only_reachable_from_mutate=True)
 
 
 CLAUSES = [
     ("C06.1", "handler discipline around the yield (R-EXC)", c1),
     ("C06.2-4", "nothing that can fail for data reasons happens after truncation; backup complete first (R-ORDER)", c2),
-    ("C06.5", "write-effect census and targets", c3),
+    ("C06.5", "write-effect census over mutate's call tree", c3),
 ]
